@@ -339,6 +339,35 @@ def job_misc(j, seed):
                 chk('su^2 = variance, su >= 0', C.all_of([(su.values[i] * su.values[i] == var[i]) & (su.values[i] >= 0) for i in range(2)]), 'C14:su')
                 chk('values column = data values', C.all_of([cols['pd_proc.intensity_net'].values[i] == vals[i] for i in range(2)]), 'C14:su')
                 chk('su column has no variances of its own', C.B.const(su.variances is None and cols['pd_proc.intensity_net'].variances is None), 'C14:su')
+    elif what == 'resave':
+        # all sequences of builder calls include saving a builder more than once and saving builders derived from a saved one:
+        # each document read by the independent lexer defines every tag exactly once per data block
+        import sys as _sys
+        if not hasattr(_sys.modules['scippneutron'], '__version__'):
+            _sys.modules['scippneutron'].__version__ = '0.0.0'
+
+        def tags_of(text):
+            toks = cif_lex(text)
+            return [c_ for k_, c_ in toks if k_ == 'tag']
+
+        base = cif.CIF('blk', comment='c').with_reducers('prog').with_authors(cif.Person(name='N', corresponding=True, role='r'))
+        derived = None
+        docs = []
+        for step in ('first save', 'second save', 'save of a builder derived after a save', 'save_cif of the derived builder', 'third save of the original'):
+            f = io.StringIO()
+            if step == 'save of a builder derived after a save':
+                derived = base.with_reducers('prog2')
+                derived.save(f)
+            elif step == 'save_cif of the derived builder':
+                cif.save_cif(f, derived)
+            else:
+                base.save(f)
+            docs.append((step, f.getvalue()))
+        for step, text in docs:
+            tg = tags_of(text)
+            dup = sorted({t_ for t_ in tg if tg.count(t_) > 1})
+            chk(f'{step}: every tag defined exactly once (duplicates: {dup[:3]})', C.B.const(len(tg) > 0 and not dup), 'C14:resave', {'ctx': 'resave'})
+        chk('the original builder writes the same tags on every save', C.B.const(tags_of(docs[0][1]) == tags_of(docs[1][1]) == tags_of(docs[4][1])), 'C14:resave', {'ctx': 'resave'})
     elif what == 'authors':
         Person = cif.Person
         n = 0
@@ -370,7 +399,7 @@ def run(chk):
 
     chk.functions = loader.describe_exprs(['cif._quotes_for_string_value', 'cif._format_value', 'cif._encode_non_ascii', 'cif._write_comment', 'cif.Chunk.write', 'cif.Loop.write', 'cif.Block.write', 'cif._write_multi', 'cif._serialize_authors', 'cif._serialize_roles', 'cif.CIF._assemble_authors', 'cif._make_reduced_powder_loop'], {**globals(), **locals()})
     run_jobs(chk, job_value, CONTEXTS)
-    run_jobs(chk, job_misc, ['comments', 'nonascii', 'blockname', 'su', 'authors'])
+    run_jobs(chk, job_misc, ['comments', 'nonascii', 'blockname', 'su', 'authors', 'resave'])
     chk.bounds = {'strings': 'z3 strings of unbounded length over printable ASCII + tab + newline', 'loops': '1x2, 2x1 and 2x2 (one symbolic column)',
                   'authors': '1..3 authors x corresponding/role flags enumerated'}
     chk.stubs = ['symbolic str subclass (content queries -> z3 sequence theory, forking)', 'pydantic models used as is with concrete strings',
@@ -514,6 +543,22 @@ def replay_real(case):
                 bad.append(f'block name {nm!r} accepted')
             except ValueError:
                 pass
+    elif ctx == 'resave':
+        base = cif.CIF('blk', comment='c').with_reducers('prog').with_authors(cif.Person(name='N', corresponding=True, role='r'))
+        derived = None
+        for step in ('first save', 'second save', 'save of a builder derived after a save', 'save_cif of the derived builder', 'third save of the original'):
+            f = io.StringIO()
+            if step == 'save of a builder derived after a save':
+                derived = base.with_reducers('prog2')
+                derived.save(f)
+            elif step == 'save_cif of the derived builder':
+                cif.save_cif(f, derived)
+            else:
+                base.save(f)
+            tg = [c_ for k_, c_ in cif_lex(f.getvalue()) if k_ == 'tag']
+            dup = sorted({t_ for t_ in tg if tg.count(t_) > 1})
+            if dup or not tg:
+                bad.append(f'{step}: tags defined more than once in one data block: {dup[:4]}')
     elif ctx == 'authors':
         people = [cif.Person(name=f'N{i}', corresponding=(c == 'True'), role=(f'{r}{i}' if r != 'None' else None)) for i, (c, r) in enumerate(case['flags'])]
         c_ = cif.CIF('blk').with_authors(*people)
